@@ -229,7 +229,7 @@ class C10(core.Check):
         (st0, steps), ref = obs
         if any(o[0] in ("close", "reopen") for o in ops):
             return []
-        allowed = set(T.conn_fault_codes(kind)) | set(HS_EXTRA)
+        allowed = set(T.conn_fault_codes(kind)) | {c + T.HS_OFFSET for c in T.conn_fault_codes(kind) + HS_EXTRA}
         raised_codes = set()
         for op, (st, snap) in zip(ops, steps):
             raised_codes = {c for e in snap if e[0] != "listen" for c in e[-1]}
